@@ -75,7 +75,7 @@ def run_check(prop, tier, seed):
     if spec is None:
         log("property %s has no check" % prop)
         return 2
-    jobs_spec = spec[tier] if tier in spec else spec["quick"]
+    jobs_spec = spec[tier] if tier in spec else spec.get("quick", [])
     scratch = tempfile.mkdtemp(prefix="bva-verif-")
     status = 0
     undecided = []
@@ -83,7 +83,7 @@ def run_check(prop, tier, seed):
     known = []
     all_units = unitsmod.load_all(os.path.join(ROOT, "spec", "units"))
     evidence = {
-        "property_id": prop, "tier": tier, "seed": seed, "level": spec.get("level", "proof"),
+        "property_id": prop, "tier": tier, "seed": seed, "level": spec.get("level", "proof" if jobs_spec else "exploration"),
         "coverage": {}, "assumptions": [], "wall_s": 0.0, "violations": 0,
     }
     try:
@@ -250,14 +250,50 @@ def run_check(prop, tier, seed):
             if f["_line"] not in printed:
                 print("KNOWN-FINDING: property=%s %s" % (prop, f["_line"].split(" ", 2)[-1]))
                 printed.add(f["_line"])
+        # ---- second engine, always on: the executable form of the contracts on the REAL crate
+        #      (native random search every run; Kani bounded-exhaustive runs in the thorough tier and as arbiter)
+        import kanirun
         found = None
-        if viol_rel or undecided:
-            # second engine: executable contracts on the REAL crate (native random search, then Kani)
-            import cex
-            try:
-                found = cex.search(prop, None, viol_rel, scratch)
-            except Exception as e:   # the counterexample engine must never mask the verdict
-                log("counterexample search failed: %s" % e)
+        dyn = {"harnesses": [], "random_runs_per_harness": 0, "nonvacuous_runs": 0, "kani_harnesses": [], "kani_ok": 0, "kani_seconds": 0.0, "failures": []}
+        try:
+            hnames = kanirun.harnesses_for(prop)
+            if hnames:
+                exe = kanirun.build_replay(scratch, "release")
+                runs = int(os.environ.get("VERIF_FUZZ_RUNS", "30000" if tier == "quick" else "300000"))
+                failed, stats = kanirun.fuzz(exe, hnames, runs, seed or 1)
+                dyn["harnesses"] = hnames
+                dyn["random_runs_per_harness"] = runs
+                dyn["nonvacuous_runs"] = sum(stats.values())
+                dyn["nonvacuous_by_harness"] = stats
+                if spec.get("debug_profile_too"):
+                    exe_d = kanirun.build_replay(scratch, "dev")
+                    failed_d, stats_d = kanirun.fuzz(exe_d, [h for h in hnames if h.startswith(tuple(spec["debug_profile_too"]))], max(2000, runs // 10), seed or 1)
+                    dyn["nonvacuous_runs_debug_profile"] = sum(stats_d.values())
+                    for k, v in failed_d.items():
+                        failed.setdefault(k, v)
+                        exe = exe_d if k not in stats else exe
+                knames = [h for h in hnames if kanirun.kani_feasible(h)]
+                if knames and not failed and (tier == "thorough" or viol_rel or undecided):
+                    res, klog, secs = kanirun.run_kani(knames, scratch, timeout=1500)
+                    dyn["kani_harnesses"] = knames
+                    dyn["kani_seconds"] = round(secs, 1)
+                    dyn["kani_ok"] = sum(1 for r in res.values() if r["status"] == "ok")
+                    for n_, r in res.items():
+                        if r["status"] == "failed" and r["bytes"]:
+                            failed[n_] = r["bytes"]
+                        elif r["status"] != "ok":
+                            dyn.setdefault("kani_undecided", []).append(n_)
+                for n_, bs in sorted(failed.items()):
+                    d = kanirun.describe(exe, n_, bs)
+                    if not d["replayed_on_real_code"] and spec.get("debug_profile_too"):
+                        d = kanirun.describe(kanirun.build_replay(scratch, "dev"), n_, bs)
+                    if d["replayed_on_real_code"]:
+                        dyn["failures"].append(d)
+                if dyn["failures"]:
+                    found = dyn["failures"][0]
+        except Exception as e:   # the second engine must never mask the verifier's verdict
+            log("dynamic stage failed: %s" % e)
+            undecided.append("dynamic stage (native build / random search / kani) failed: %s" % str(e).split("\n")[0][:200])
         rdir = os.path.join(ROOT, "evidence", "replay")
         if viol_rel:
             status = 1
@@ -277,7 +313,7 @@ def run_check(prop, tier, seed):
                 print("VIOLATION property=%s replay=%s%s" % (prop, rpath, suffix))
                 for v in vs[:4]:
                     log("  failed obligation %s@%s:%s at %s: %s" % (uname, v["job"], v["kind"], v["where"], v["message"].split("\n")[0]))
-        elif undecided and found:
+        elif found:
             # the verifier could not decide (lost anchor, unsupported construct, resource limit) but the
             # executable form of the contract fails on the real code for a concrete input
             status = 1
@@ -285,8 +321,10 @@ def run_check(prop, tier, seed):
             rpath = os.path.join(rdir, "%s-%s.json" % (prop, found["harness"]))
             with open(rpath, "w") as f:
                 json.dump({"property": prop, "unit": None, "failed_obligations": [
-                    {"obligation": "kani/native executable contract %s" % found["harness"], "where": str(found.get("failed_assertion")),
-                     "verifier_message": "; ".join(undecided[:3]), "verifier_output": ""}], "counterexample": found}, f, indent=1)
+                    {"obligation": "executable contract %s (kani/src: written from the property statement, run on the real crate)" % found["harness"],
+                     "where": str(found.get("failed_assertion")),
+                     "verifier_message": "; ".join(undecided[:3]), "verifier_output": ""}], "counterexample": found,
+                    "all_failing_harnesses": [d["harness"] for d in dyn["failures"]]}, f, indent=1)
             print("VIOLATION property=%s replay=%s" % (prop, rpath))
         elif undecided:
             status = 2
@@ -333,12 +371,31 @@ def run_check(prop, tier, seed):
             "known_findings": [f["_line"] for (f, v) in known],
             "fixed_findings": kf["fixed"],
         }
+        cov.update({
+            "evaluations": dyn["random_runs_per_harness"] * len(dyn["harnesses"]),
+            "distinct_nontrivial": dyn["nonvacuous_runs"],
+            "rule": ("second engine (not counted as proof): each executable contract harness of kani/src (written from the property statement, "
+                     "run natively against /repo) is fed `random_runs_per_harness` pseudo-random 96-byte inputs (seeded by VERIF_SEED, biased to 0x00/0xff/boundary bytes); "
+                     "an input is non-trivial when it satisfies every assumption of the harness (well-formed operands, index ranges) so that the contract is actually evaluated; "
+                     "inputs are random so distinctness is not measured exactly; the count is the number of non-vacuous evaluations"),
+            "executable_contract_harnesses": dyn["harnesses"],
+            "random_runs_per_harness": dyn["random_runs_per_harness"],
+            "bounded_units": {"engine": "kani 0.68 / cbmc 6.11 on the real crate", "harnesses": dyn["kani_harnesses"], "verified": dyn["kani_ok"],
+                              "seconds": dyn["kani_seconds"], "undecided": dyn.get("kani_undecided", []),
+                              "bounds": "all lengths and all values of Bvf<u8,2>, Bvf<u8,3>, Bvf<u16,2> operands (u32 reference model), loops unwound 34 times with unwinding assertions; run in the thorough tier and whenever the verifier reports a failure or cannot decide"},
+            "dynamic_failures": [d["harness"] for d in dyn["failures"]],
+        })
+        if not samples and dyn["harnesses"]:
+            samples.append({"harness": dyn["harnesses"][0], "kind": "executable contract, random inputs", "runs": dyn["random_runs_per_harness"]})
+            cov["samples"] = samples
         cov.update(audit)
         if hasattr(plan, "extra_evidence"):
             cov.update(plan.extra_evidence(prop, tier))
         evidence["coverage"] = cov
         evidence["assumptions"] = tb + list(spec.get("assumptions", []))
-        evidence["violations"] = len(viol_rel)
+        evidence["violations"] = len(viol_rel) + (1 if (found and not viol_rel) else 0)
+        if obligations == 0:
+            evidence["level"] = "exploration"
     except expandsrc.ExpandError as e:
         print("UNDECIDED property=%s reason=%s" % (prop, str(e).split("\n")[0]))
         log(str(e))
